@@ -280,7 +280,7 @@ def runAll (body impl : String) : Ans :=
             let dp := dumpField impl "dp"
             let fileProducts := match hf with | some f => (f.hostTags.getD []).map (·.1) | none => []
             if !subsetB rp hp then "FAIL:open-route-product"
-            else if !subsetB ac cc then "FAIL:open-adv-cluster"
+            else if !subsetB ac cc then "FAIL:adv-rule-dangling-cluster"
             else if !subsetB (bc.filter (· != advancedMode)) cc then "FAIL:open-basic-cluster"
             else if !subsetB ht tt then "FAIL:open-host-tag"
             else if !subsetB dp fileProducts then "FAIL:open-default-product"
